@@ -17,6 +17,15 @@ static void run(std::vector<El>& v, int P, const char* what) {
     std::vector<std::pair<int, int>> a, b; for (auto& e : in) a.push_back({e.key, e.id}); for (auto& e : v) b.push_back({e.key, e.id}); std::sort(a.begin(), a.end()); std::sort(b.begin(), b.end()); if (a != b) vf_fail("parallel_sort(%s, n=%zu): result is not a permutation of the input", what, v.size());
     vf_outcome("sort %s n=%zu P=%d steals=%ld cmp=%ld", what, v.size(), P, vtbb::stats().steals, ncmp);
 }
+// every overload of parallel_sort: (begin,end), (begin,end,comp), (container), (container,comp)
+struct Lt { int key, id; bool operator<(const Lt& o) const { return key < o.key; } };
+static void c_ovl(long c) { int P = 1 + (int)(c % 2); c /= 2; int ov = (int)(c % 4); c /= 4; static const int NS[] = {0, 1, 2, 7, 499, 500, 650}; int n = NS[c % 7];
+    std::vector<Lt> v(n); for (int i = 0; i < n; i++) v[i] = {(int)(((long)i * 37 + 11) % (n ? n : 1)), i}; std::vector<Lt> in = v; vtbb::init(P);
+    auto desc = [](const Lt& a, const Lt& b) { return a.key > b.key; };
+    if (ov == 0) tbb::parallel_sort(v.begin(), v.end()); else if (ov == 1) tbb::parallel_sort(v.begin(), v.end(), desc); else if (ov == 2) tbb::parallel_sort(v); else tbb::parallel_sort(v, desc);
+    vtbb::finish(); bool d = ov & 1; for (size_t i = 1; i < v.size(); i++) if (d ? v[i - 1].key < v[i].key : v[i].key < v[i - 1].key) vf_fail("parallel_sort overload %d, n=%d: result not sorted at position %zu", ov, n, i);
+    std::vector<int> a, b; for (auto& e : in) a.push_back(e.id); for (auto& e : v) b.push_back(e.id); std::sort(a.begin(), a.end()); std::sort(b.begin(), b.end()); if (a != b) vf_fail("parallel_sort overload %d, n=%d: result is not a permutation of the input", ov, n);
+    vf_outcome("sort-ovl %d n=%d P=%d", ov, n, P); }
 static const int SIZES[] = {500, 501, 502, 503, 504, 505, 506, 507, 508, 509, 510, 511, 512, 513, 514, 515, 516, 517, 518, 519, 520, 617, 811, 1200};
 static long NINV, NSHAPE, NPERM, NTERN; static const int NSH = 21;
 static std::vector<El> sorted_input(int n) { std::vector<El> v(n); for (int i = 0; i < n; i++) v[i] = {2 * i, i}; return v; }
@@ -35,9 +44,10 @@ static void scenario(long c) {
     c -= NSHAPE;
     if (c < NPERM) { int n = 0; long f = 1, base = 0; for (n = 1; n <= 6; n++) { f *= n; if (c < base + f) break; base += f; } long idx = c - base; std::vector<int> p(n); std::iota(p.begin(), p.end(), 0); for (long i = 0; i < idx; i++) std::next_permutation(p.begin(), p.end()); std::vector<El> v; for (int i = 0; i < n; i++) v.push_back({2 * p[i], i}); run(v, 2, "permutation"); return; }
     c -= NPERM;
+    if (c >= NTERN) { c_ovl(c - NTERN); return; }
     { int n = 1; long base = 0, pw = 3; while (c >= base + pw) { base += pw; pw *= 3; n++; } long idx = c - base; std::vector<El> v; for (int i = 0; i < n; i++) { v.push_back({2 * (int)(idx % 3), i}); idx /= 3; } run(v, 2, "three-valued"); }
 }
 int main(int argc, char** argv) {
     long inv = 0; for (int s : SIZES) inv += s - 1; NINV = 2 * inv; NSHAPE = 3L * NSH * (sizeof(SIZES) / sizeof(int)); NPERM = 1 + 2 + 6 + 24 + 120 + 720; NTERN = 3 + 9 + 27 + 81 + 243 + 729;
-    return vf_main_cases(argc, argv, NINV + NSHAPE + NPERM + NTERN, scenario);
+    return vf_main_cases(argc, argv, NINV + NSHAPE + NPERM + NTERN + 2L * 4 * 7, scenario);
 }
